@@ -88,6 +88,8 @@ def generate(prop, rng, index, tier):
                 libs = pair
             if rng.random() < 0.06:
                 libs = libs + ["nolib_zz"] if rng.random() < 0.5 else ["nolib_zz"] + libs   # not installed
+            elif rng.random() < 0.06:
+                libs = []                                                                      # the empty subset
             ops.append(["PROGRAM", libs])
         elif r < 0.87:
             libs = rng.sample(tops, rng.randint(1, min(2, len(tops))))
